@@ -179,6 +179,17 @@ func judgePlus(c *Ctx, a, b string, r *gen.Rand) {
 		{"(ISC OR " + bPlain + ") AND MIT", []string{ap, "MIT"}, want},
 		{bPlain, []string{"MIT", "ISC", ap, "Zlib"}, want},
 	}
+	if (len(a)+len(b))%5 == 0 {
+		// the '+' entry as the last of a long list of unrelated entries (implementations index long lists)
+		long := make([]string, 0, 302)
+		for i := 0; len(long) < 300; i++ {
+			if id := u.NotInTable[(i*13+len(a))%len(u.NotInTable)]; !strings.Contains(id, "+") {
+				long = append(long, id)
+			}
+		}
+		ctxs = append(ctxs, ctx{bPlain, append(append([]string{}, long...), ap), want}, ctx{ap, append(append([]string{}, long...), bPlain), want})
+		c.Inc("plus_long_list_contexts")
+	}
 	if u.SpellOK(b, gen.SpPlus) {
 		ctxs = append(ctxs, ctx{b + "+", []string{ap}, true}, ctx{ap, []string{b + "+"}, true})
 	}
@@ -268,6 +279,7 @@ func runC11(c *Ctx, phase string) {
 	c.Floor("plus_expected_true", 500)
 	c.Floor("plus_expected_false", 300)
 	c.Floor("plus_context_checks", 3000)
+	c.Floor("plus_long_list_contexts", 100)
 	c.Floor("cross_family_checks", 5000)
 	c.Floor("table_entries", int64(len(u.Pos)))
 
